@@ -498,7 +498,7 @@ func c19BoundedReads(c *Ctx, ge *GuardEngine) {
 					ge.pv.loadCtx = []ssa.Instruction{call}
 					limit = ge.pv.Atom(lr, nil)
 				}
-				wire := map[string]bool{"(*rhp/v2.Transport).readMessage": true, "(*rhp/v2.Transport).RawResponse": true, "(*rhp/v3.Stream).readObject": true}
+				wire := map[string]bool{"(rhp/v2.Transport).readMessage": true, "(rhp/v2.Transport).RawResponse": true, "(rhp/v3.Stream).readObject": true}
 				ok2 := limit != "" && boundedAtom(limit, wire[fname])
 				// a helper that is handed a limit must use it
 				for _, prm := range fn.Params {
@@ -520,7 +520,7 @@ func c19BoundedReads(c *Ctx, ge *GuardEngine) {
 	// rhp/v4: the limits the size algebra assumes are the ones the transport applies
 	for _, e := range []struct{ fn, want, what string }{
 		{"rhp/v4.ReadRequest", "call invoke rhp/v4.Object.maxLen({rhp/v4.Object})", "o.maxLen()"},
-		{"rhp/v4.ReadResponse", "(call (*rhp/v4.RPCError).maxLen(…) + call invoke rhp/v4.Object.maxLen({rhp/v4.Object}))", "RPCError.maxLen() + o.maxLen()"},
+		{"rhp/v4.ReadResponse", "(call (rhp/v4.RPCError).maxLen(…) + call invoke rhp/v4.Object.maxLen({rhp/v4.Object}))", "RPCError.maxLen() + o.maxLen()"},
 	} {
 		cs, fn := directCalls(ge, e.fn)
 		if fn == nil {
@@ -538,11 +538,11 @@ func c19BoundedReads(c *Ctx, ge *GuardEngine) {
 	}
 	// length prefixes compared against the limit before sizing a buffer
 	tab := []GuardReq{
-		req("v2-readMessage:size-vs-limit", "rhp/v2.(*Transport).readMessage", "call (*types.Decoder).ReadUint64(…)", opGT, "…{uint64}…", "a frame longer than the caller's limit is rejected before its buffer is grown", "…"),
-		req("v2-readMessage:size-vs-overhead", "rhp/v2.(*Transport).readMessage", "call (*types.Decoder).ReadUint64(…)", opLT, "…", "a frame shorter than nonce + tag is rejected", "…"),
-		req("v2-RawResponse:size-vs-limit", "rhp/v2.(*Transport).RawResponse", "call (*types.Decoder).ReadUint64(…)", opGT, "…{uint64}…", "a streamed frame longer than the caller's limit is rejected", "…"),
-		req("v2-RawResponse:size-vs-overhead", "rhp/v2.(*Transport).RawResponse", "call (*types.Decoder).ReadUint64(…)", opLT, "…", "a streamed frame shorter than nonce + tag is rejected before the subtraction", "…"),
-		req("v3-readObject:size-vs-limit", "rhp/v3.(*Stream).readObject", "call (*types.Decoder).ReadUint64(…)", opGT, "…{uint64}…", "a declared length above the limit is rejected", "…"),
+		req("v2-readMessage:size-vs-limit", "rhp/v2.(*Transport).readMessage", "call (types.Decoder).ReadUint64(…)", opGT, "…{uint64}…", "a frame longer than the caller's limit is rejected before its buffer is grown", "…"),
+		req("v2-readMessage:size-vs-overhead", "rhp/v2.(*Transport).readMessage", "call (types.Decoder).ReadUint64(…)", opLT, "…", "a frame shorter than nonce + tag is rejected", "…"),
+		req("v2-RawResponse:size-vs-limit", "rhp/v2.(*Transport).RawResponse", "call (types.Decoder).ReadUint64(…)", opGT, "…{uint64}…", "a streamed frame longer than the caller's limit is rejected", "…"),
+		req("v2-RawResponse:size-vs-overhead", "rhp/v2.(*Transport).RawResponse", "call (types.Decoder).ReadUint64(…)", opLT, "…", "a streamed frame shorter than nonce + tag is rejected before the subtraction", "…"),
+		req("v3-readObject:size-vs-limit", "rhp/v3.(*Stream).readObject", "call (types.Decoder).ReadUint64(…)", opGT, "…{uint64}…", "a declared length above the limit is rejected", "…"),
 	}
 	runGuardTable(c, "bounded-reads", ge, tab)
 }
@@ -592,7 +592,7 @@ func limitedReaderN(v ssa.Value) ssa.Value {
 
 var (
 	maxLenCallRe = regexp.MustCompile(`call (invoke )?[^ ()]*(\([^()]*\))?\.?max(Len|RequestLen|ResponseLen)\([^()]*\)`)
-	wireLenRe    = regexp.MustCompile(`call \(\*types\.Decoder\)\.ReadUint64\(call types\.NewDecoder\(lit\{[^{}]*(\{[^{}]*\})?[^{}]*\}\)\)`)
+	wireLenRe    = regexp.MustCompile(`call \(types\.Decoder\)\.ReadUint64\(call types\.NewDecoder\(lit\{[^{}]*(\{[^{}]*\})?[^{}]*\}\)\)`)
 	boundTokRe   = regexp.MustCompile(`const:-?\d+|\{u?int(64)?\}(#\d+)?|phi\(|[|+\-() ]`)
 )
 
@@ -626,7 +626,7 @@ func c19Errors(c *Ctx, ge *GuardEngine) {
 			for _, b := range an.Blocks {
 				for _, in := range b.Instrs {
 					call, ok := in.(*ssa.Call)
-					if !ok || call.Call.StaticCallee() == nil || FuncName(call.Call.StaticCallee()) != "(*types.Decoder).SetErr" || len(call.Call.Args) != 2 {
+					if !ok || call.Call.StaticCallee() == nil || FuncName(call.Call.StaticCallee()) != "(types.Decoder).SetErr" || len(call.Call.Args) != 2 {
 						continue
 					}
 					mi, ok := call.Call.Args[1].(*ssa.MakeInterface)
@@ -655,14 +655,14 @@ func c19Errors(c *Ctx, ge *GuardEngine) {
 	}
 	if fn := c.P.Func("rhp/v4.withDecoder"); fn != nil {
 		as := ge.ReturnAtoms(fn, 0)
-		ok := len(as) == 1 && strings.HasPrefix(as[0], "call (*types.Decoder).Err(")
+		ok := len(as) == 1 && strings.HasPrefix(as[0], "call (types.Decoder).Err(")
 		c.Check(ok, "error-delivered", "rhp/v4.withDecoder", c.P.Pos(fn.Pos()), ifElse(ok, "returns the decoder's sticky error", "withDecoder returns "+joinShort(as)+" instead of d.Err()"))
 	}
 	if fn := c.P.Func("rhp/v4.WriteResponse"); fn != nil {
 		found := false
 		for _, an := range fn.AnonFuncs {
 			for _, cf := range ge.Calls(an, nil, nil, nil, 0, map[*ssa.Function]int{}) {
-				if cf.Callee != nil && FuncName(cf.Callee) == "(*types.Encoder).WriteBool" && len(cf.Chain) == 1 && len(cf.Args) == 2 && strings.HasPrefix(cf.Args[1], "ok:") && strings.Contains(cf.Args[1], "RPCError") {
+				if cf.Callee != nil && FuncName(cf.Callee) == "(types.Encoder).WriteBool" && len(cf.Chain) == 1 && len(cf.Args) == 2 && strings.HasPrefix(cf.Args[1], "ok:") && strings.Contains(cf.Args[1], "RPCError") {
 					found = true
 				}
 			}
@@ -769,8 +769,8 @@ func c19Tamper(c *Ctx, ge *GuardEngine) {
 	}
 	// once closed/errored, no further message is processed
 	tab := []GuardReq{
-		req("readMessage:refuses-after-error", "rhp/v2.(*Transport).readMessage", "call (*rhp/v2.Transport).PrematureCloseErr(…)", opNE, "nil", "a session that recorded an error refuses further reads", "…"),
-		req("writeMessage:refuses-after-error", "rhp/v2.(*Transport).writeMessage", "call (*rhp/v2.Transport).PrematureCloseErr(…)", opNE, "nil", "a session that recorded an error refuses further writes", "…"),
+		req("readMessage:refuses-after-error", "rhp/v2.(*Transport).readMessage", "call (rhp/v2.Transport).PrematureCloseErr(…)", opNE, "nil", "a session that recorded an error refuses further reads", "…"),
+		req("writeMessage:refuses-after-error", "rhp/v2.(*Transport).writeMessage", "call (rhp/v2.Transport).PrematureCloseErr(…)", opNE, "nil", "a session that recorded an error refuses further writes", "…"),
 	}
 	runGuardTable(c, "tamper-closes", ge, tab)
 	c.Min("tamper-closes", 5)
